@@ -411,6 +411,12 @@ func (c *Collection) Distinct(ctx context.Context, field string, filter interfac
 
 // Drop implements the ICollection.Drop method.
 func (c *Collection) Drop(ctx context.Context) error {
+	// validate handle, a handle without a collection would drop the database
+	err := c.handle.Validate(true)
+	if err != nil {
+		return err
+	}
+
 	// begin transaction
 	txn, err := c.engine.Begin(ctx, true)
 	if err != nil {
